@@ -28,7 +28,7 @@ fn positions(n: usize) -> Vec<usize> {
 }
 
 fn mixed_string(r: &mut crate::rng::Rng, n: usize) -> String {
-    let alpha = ["a", "b", "é", "日", "😀", "\u{301}", "z", "0", " ", "ß", "\u{10FFFF}"];
+    let alpha = ["a", "b", "é", "日", "😀", "\u{301}", "z", "0", " ", "ß", "\u{10FFFF}", "\u{7F}", "\u{80}", "\u{7FF}", "\u{800}", "\u{FFFF}", "\u{10000}", "\u{0}", "\u{D7FF}", "\u{E000}", "~", "\u{A0}"];
     let mut s = String::new();
     for _ in 0..n {
         s.push_str(alpha[r.below(alpha.len())]);
@@ -384,6 +384,51 @@ pub fn c12(ctx: &mut Ctx) {
                 ctx.check("c12.missing_some.model", &json!({"missing_some": [need, list]}), &data);
             }
         }
+        // integer keys and their string twins (distinct keys with the same lookup path), on
+        // object and array data; repeated present keys; thresholds beyond small numbers
+        let arr_data = Value::Array((0..n / 2).map(|i| if i % 5 == 0 { Value::Null } else { json!(i) }).collect());
+        let mut twins: Vec<Value> = Vec::new();
+        for i in 0..n {
+            twins.push(if i % 2 == 0 { json!(i as i64) } else { json!((i - 1).to_string()) });
+        }
+        let mut reps: Vec<Value> = Vec::new();
+        for i in 0..n {
+            reps.push(json!(format!("k{}", 1 + (i % 5))));
+        }
+        reps.push(json!("gone"));
+        reps.push(json!(7));
+        reps.push(json!("7"));
+        let mut twins_obj = Map::new();
+        for i in 0..n / 3 {
+            twins_obj.insert(i.to_string(), json!(i));
+        }
+        let twins_obj = Value::Object(twins_obj);
+        for (list, d) in [(twins.clone(), arr_data.clone()), (twins.clone(), twins_obj.clone()), (twins.clone(), json!({})), (reps.clone(), data.clone()), (reps.clone(), json!({}))] {
+            ctx.check("c12.missing.model", &json!({ "missing": list }), &d);
+            for need in [0usize, 1, 2, 4, 5, 6, 8, 9, 10, n / 2, n - 1, n, n + 1, n + 3, 2 * n] {
+                let rule = json!({"missing_some": [need, list]});
+                let (obs, _) = ctx.check("c12.missing_some.model", &rule, &d);
+                // model-free: a non-empty result lists each missing key once, in order, and keeps
+                // keys apart that differ as JSON values (7 and "7")
+                if let Outcome::Ok(Value::Array(got)) = &obs.out {
+                    if !got.is_empty() {
+                        let mut want: Vec<Value> = Vec::new();
+                        for k in list.iter() {
+                            if let crate::refsem::Look::Absent = crate::refsem::lookup(&d, k) {
+                                if !want.contains(k) {
+                                    want.push(k.clone());
+                                }
+                            }
+                        }
+                        ctx.mon("c12.missing_some.laws").observed += 1;
+                        ctx.mon("c12.missing_some.laws").judged += 1;
+                        if Value::Array(want.clone()).to_string() != Value::Array(got.clone()).to_string() {
+                            ctx.violation("c12.missing_some.laws", "not-the-distinct-missing-keys:large", &rule, &json!({"size": n}), json!(want.len()), json!(got.len()), "a non-empty result is not the distinct missing keys in order");
+                        }
+                    }
+                }
+            }
+        }
         // all absent / all present
         ctx.check("c12.missing_some.model", &json!({"missing_some": [1, keys]}), &json!({}));
         let absent_dup: Vec<Value> = (0..n).map(|_| json!("gone")).collect();
@@ -491,6 +536,25 @@ pub fn c15(ctx: &mut Ctx) {
             crate::props_values::c15_in_pub(ctx, &json!(needle), &json!(s));
             crate::props_values::c15_in_pub(ctx, &json!(format!("{}\u{1F600}\u{1F601}", needle)), &json!(s));
         }
+        // arrays of n numbers as needle / member, one position re-spelled (int vs double)
+        if n <= 1100 {
+            for p in positions(n) {
+                let a: Vec<Value> = (0..n).map(|i| json!(i as i64)).collect();
+                let mut b = a.clone();
+                b[p] = json!(p as f64);
+                let mut c = a.clone();
+                c[p] = json!({"w": [p as f64]});
+                let mut c2 = a.clone();
+                c2[p] = json!({"w": [p as i64]});
+                let mut diff = a.clone();
+                diff[p] = json!(p as f64 + 0.5);
+                crate::props_values::c15_in_pub(ctx, &Value::Array(a.clone()), &json!([Value::Array(b.clone())]));
+                crate::props_values::c15_in_pub(ctx, &Value::Array(b), &json!([1, Value::Array(a.clone())]));
+                crate::props_values::c15_in_pub(ctx, &Value::Array(c), &json!([Value::Array(c2)]));
+                crate::props_values::c15_in_pub(ctx, &Value::Array(diff), &json!([Value::Array(a.clone())]));
+                crate::props_values::c15_in_pub(ctx, &json!({"row": a.clone()}), &json!([{"row": (0..n).map(|i| json!(i as f64)).collect::<Vec<_>>()}]));
+            }
+        }
         // merge with n operands / arrays of n elements
         crate::props_values::c15_merge_pub(ctx, &hay);
         crate::props_values::c15_merge_pub(ctx, &[Value::Array(hay.clone()), json!(1), Value::Array(vec![json!([1]); n.min(500)])]);
@@ -551,6 +615,7 @@ pub fn c16(ctx: &mut Ctx) {
         crate::props_values::c16_cat_pub(ctx, &[deep, json!("|")]);
         ctx.cell("size-ladder");
     }
+    crate::props_values::c16_tables(ctx);
     for t in ["123456789012345678901234567890", "1e21", "1e-7", "0.000001", "1e300", "123456789.123456789", "-0.0", "1.7976931348623157e308", "5e-324", "100000000000000000000", "1e20", "9007199254740993"] {
         crate::props_values::c16_cat_pub(ctx, &[parse(t), json!([parse(t)]), json!("|")]);
     }
